@@ -169,6 +169,15 @@ def write_evidence(prop, tier, check, meta, wall, violations, known, extra=None)
             seen_rules.add(o["rule"])
             samples.append({"rule": o["rule"], "construct": o["construct"], "derived": o["fact"], "at": o["loc"],
                             "holds": o["ok"]})
+    try:
+        from rules import closed_world as _cw
+        meta = dict(meta)
+        meta["explanation"] = meta["explanation"] + _cw.EXPLANATION
+        meta["rules"] = dict(meta.get("rules", {}))
+        for k_, v_ in _cw.RULE_METHODS.items():
+            meta["rules"]["%s.%s" % (prop, k_)] = v_
+    except ImportError:
+        pass
     cov = {
         "explanation": meta["explanation"],
         "does_not_decide": meta.get("does_not_decide", ""),
